@@ -1522,6 +1522,44 @@ func runC16(args []string) error {
 		if vend > 0 {
 			sm.count("e2e:loads-vendored-package")
 		}
+		// measured shape of the loaded part: the same import path present in several places, a package
+		// with several importers (diamond), relative imports, depth of the entry
+		several, relative := false, false
+		importers := map[string]int{}
+		for _, d := range reach {
+			for _, ip := range w.byDir[d].Imports {
+				if t, ok := w.gImport(d, ip); ok {
+					importers[t]++
+				}
+				parts := c16Split(ip)
+				if c16IsRel(parts) {
+					relative = true
+					continue
+				}
+				n := 0
+				for dir := range w.goSet {
+					if dir == c16Gsrc+"/"+ip || strings.HasSuffix(dir, "/"+c16Vendor+"/"+ip) {
+						n++
+					}
+				}
+				several = several || n >= 2
+			}
+		}
+		if several {
+			sm.count("e2e:imports-a-path-present-in-several-places")
+		}
+		if relative {
+			sm.count("e2e:loads-through-relative-imports")
+		}
+		for _, n := range importers {
+			if n >= 2 {
+				sm.count("e2e:has-diamond")
+				break
+			}
+		}
+		if !c.File {
+			sm.count(fmt.Sprintf("e2e:entry-depth:%d", len(c16Split(c.Entry))))
+		}
 		if len(w.goSet) != len(reach) {
 			sm.count("e2e:has-unreachable-packages")
 		}
